@@ -72,7 +72,8 @@ CLAIMS.update({
     "C08": dict(
         category="other", design="DESIGN.md §3 C08",
         technique="static analysis: power-law/Bessel normal forms of the closed-form statistics; constant, exponent and Bessel-parameter identities",
-        text=("D = 2(C(0)-C(r)) term by term, D(0) = 0 exactly, saturation 2*0.0863, Kolmogorov limit and constants, PSD constant and "
+        text=("D = 2(C(0)-C(r)) term by term, D(0) = 0 exactly (as the limit of the closed form AND as the value the code computes at exactly r = 0: "
+              "supplied explicitly or the argument kept off 0), saturation 2*0.0863, Kolmogorov limit and constants, PSD constant and "
               "exponents in both screen generators, r0^(-5/3) scaling, and exact agreement of the slope-covariance and KL copies are "
               "decided as identities between normal forms for all r, r0, L0; no result array takes the dtype of an integer argument. Monotonicity / PSD-ness / the Hankel integral are not."),
         note="Trusted: small-argument expansion of K_v; published constants compared with per-identity tolerances (1e-3, 2.5e-2)."),
